@@ -575,7 +575,12 @@ func (target *BuildTarget) resolveDependencies(graph *BuildGraph, callback func(
 			if err := target.resolveOneDependency(graph, dep); err != nil {
 				return err
 			}
-			for _, d := range dep.deps {
+			// Another goroutine may be resolving this same target (e.g. it was activated twice, once as a
+			// requested target & once for a subinclude), so read what was resolved under the lock.
+			target.mutex.RLock()
+			deps := dep.deps
+			target.mutex.RUnlock()
+			for _, d := range deps {
 				if err := callback(d); err != nil {
 					return err
 				}
@@ -588,9 +593,12 @@ func (target *BuildTarget) resolveDependencies(graph *BuildGraph, callback func(
 }
 
 func (target *BuildTarget) resolveOneDependency(graph *BuildGraph, dep *depInfo) error {
-	depTarget := graph.WaitForTarget(*dep.declared)
+	target.mutex.RLock()
+	declared := *dep.declared
+	target.mutex.RUnlock()
+	depTarget := graph.WaitForTarget(declared)
 	if depTarget == nil {
-		return fmt.Errorf("Couldn't find dependency %s", dep.declared)
+		return fmt.Errorf("Couldn't find dependency %s", declared)
 	}
 	// Saves memory by not storing the label twice once resolved. Needs the lock, other goroutines
 	// (e.g. the cycle detector) may be reading this target's dependencies at the same time.
